@@ -80,7 +80,7 @@ def _call_target(fn, a):
     return target.do_target(a["baits"], None, a["short"], a["split"], a["avg"])
 
 
-contract("cnvlib/target.py::do_target", params=dict(baits=ObjT("GenomicArray")), bounded=True, gen=_gen_target,
+contract("cnvlib/target.py::do_target#rt", params=dict(baits=ObjT("GenomicArray")), bounded=True, gen=_gen_target,
          call=_call_target, props=("C12",), checks=[("union_of_baits_equal_bins", _chk_target)])
 
 
@@ -398,3 +398,103 @@ def _chk_access(args, res, old):
 
 contract("cnvlib/access.py::do_access", params=dict(fasta=Str), bounded=True, gen=_gen_access, call=_call_access,
          modifies=("tmp", "fasta", "exclude"), props=("C13",), checks=[("runs_minus_excluded_joined", _chk_access)])
+
+
+# ----------------------------------------------------------------------------- deductive: target / antitarget composition
+# get_antitargets and do_target are proved against the contracts of the interval operations they call:
+# resize_ranges and subtract are themselves proved (c_intervals), subdivide and drop_noncanonical_contigs are assumed
+# here and checked at run time by their bounded twins.
+from .c_call import CHROM, GENE       # noqa: E402
+from .c_intervals import _KEEP, _IV3, _GA      # noqa: E402
+
+_GAT = ObjT("GenomicArray", data=TabT(index="any", chromosome=CHROM, start=Int, end=Int, gene=GENE), meta=DictT())
+
+contract(
+    "skgenome/gary.py::GenomicArray.subdivide",
+    params=dict(self=_GAT, avg_size=Int, min_size=Int, verbose=Lit(False)),
+    returns=ObjT("GenomicArray", data=TabT(index="range", chromosome=CHROM, start=Int, end=Int, gene=GENE), meta=DictT()),
+    trusted=True, requires=[],
+    ensures=[
+        ("bins_nonempty", "forall(0, len(result.data), lambda j: result.data.start[j] < result.data.end[j])"),
+        ("bins_inside_input", "forall(0, len(result.data), lambda j: forall(lambda x: implies(uf_bool('base', x) and result.data.start[j] <= x and "
+                              "x < result.data.end[j], exists(0, len(self.data), lambda q: self.data.chromosome[q] == result.data.chromosome[j] and "
+                              "self.data.start[q] <= x and x < self.data.end[q]))))"),
+        ("bins_disjoint", "forall(0, len(result.data), lambda a: forall(0, len(result.data), lambda b: implies(a < b and "
+                          "result.data.chromosome[a] == result.data.chromosome[b], result.data.end[a] <= result.data.start[b] or "
+                          "result.data.end[b] <= result.data.start[a])))"),
+        ("covers_input_without_minimum", "implies(min_size <= 0, forall(0, len(self.data), lambda q: forall(lambda x: implies(uf_bool('base', x) and "
+                                         "self.data.start[q] <= x and x < self.data.end[q], exists(0, len(result.data), lambda j: "
+                                         "result.data.chromosome[j] == self.data.chromosome[q] and result.data.start[j] <= x and x < result.data.end[j])))))"),
+    ],
+    props=(), domain="skip",
+    notes="assumed at call sites; the bounded contract GenomicArray.subdivide#rt checks the stronger statement (equal split "
+          "of every merged region of at least the minimum size, exact cover) on generated tables",
+)
+
+contract(
+    "cnvlib/antitarget.py::drop_noncanonical_contigs",
+    params=dict(accessible=_GAT, targets=_GAT, verbose=Lit(True)),
+    returns=_GAT, trusted=True, requires=[],
+    ensures=[("rows_of_accessible", "forall(0, len(result.data), lambda j: exists(0, len(accessible.data), lambda q: "
+                                    "accessible.data.chromosome[q] == result.data.chromosome[j] and accessible.data.start[q] == result.data.start[j] "
+                                    "and accessible.data.end[q] == result.data.end[j]))")],
+    props=(), domain="skip",
+    notes="assumed: keeps a subset of the accessible rows (which contigs it drops is the bounded C12 contract's business)",
+)
+
+_PAD = 500
+contract(
+    "cnvlib/antitarget.py::get_antitargets",
+    params=dict(targets=_GAT, accessible=_GAT, avg_bin_size=Int, min_bin_size=Int),
+    returns=ObjT("GenomicArray", data=TabT(index="range", chromosome=CHROM, start=Int, end=Int, gene=GENE), meta=DictT()),
+    requires=["len(accessible.data) > 0"],
+    ensures=[
+        ("named_antitarget", "forall(0, len(result.data), lambda j: result.data.gene[j] == 'Antitarget')"),
+        # every base of every bin lies inside an accessible region shrunk by the 500-base margin ...
+        ("inside_shrunk_access", "forall(0, len(result.data), lambda j: forall(lambda x: implies(uf_bool('base', x) and result.data.start[j] <= x and "
+                                 "x < result.data.end[j], exists(0, len(accessible.data), lambda q: accessible.data.chromosome[q] == result.data.chromosome[j] "
+                                 "and accessible.data.start[q] + 500 <= x and x < accessible.data.end[q] - 500))))"),
+        # ... and at least 500 bases away from every target
+        ("clear_of_targets", "forall(0, len(result.data), lambda j: forall(lambda x: implies(uf_bool('base', x) and result.data.start[j] <= x and "
+                             "x < result.data.end[j], forall(0, len(targets.data), lambda t: not (targets.data.chromosome[t] == result.data.chromosome[j] "
+                             "and targets.data.start[t] - 500 <= x and x < targets.data.end[t] + 500)))))"),
+        ("bins_disjoint", "forall(0, len(result.data), lambda a: forall(0, len(result.data), lambda b: implies(a < b and "
+                          "result.data.chromosome[a] == result.data.chromosome[b], result.data.end[a] <= result.data.start[b] or "
+                          "result.data.end[b] <= result.data.start[a])))"),
+    ],
+    props=("C12",), domain="skip",
+    canaries=[("targets_not_padded", "targets.resize_ranges(pad_size)", "targets.resize_ranges(0)"),
+              ("access_not_shrunk", "accessible.resize_ranges(-pad_size)", "accessible.resize_ranges(0)"),
+              ("margin_halved", "pad_size = 2 * INSERT_SIZE", "pad_size = INSERT_SIZE"),
+              ("not_named", "bg_arr[\"gene\"] = ANTITARGET_NAME", "pass")],
+)
+
+
+_BAITS = ObjT("GenomicArray", data=TabT(index="range", chromosome=CHROM, start=Int, end=Int, gene=GENE), meta=DictT())
+contract(
+    "cnvlib/target.py::do_target",
+    params=dict(bait_arr=_BAITS, annotate=Lit(None), do_short_names=Lit(False), do_split=Bool, avg_size=Int),
+    returns=ObjT("GenomicArray", data=TabT(index="any", chromosome=CHROM, start=Int, end=Int, gene=GENE), meta=DictT()),
+    requires=["forall(0, len(bait_arr.data), lambda k: bait_arr.data.start[k] <= bait_arr.data.end[k])"],
+    ensures=[
+        # without --split: exactly the non-empty baits, unchanged and in order (result.data.index = their positions)
+        ("nonempty_baits_unchanged", "implies(not do_split, forall(0, len(result.data), lambda j: let(lambda k: 0 <= k and k < len(bait_arr.data) and "
+                                     "bait_arr.data.start[k] != bait_arr.data.end[k] and result.data.chromosome[j] == bait_arr.data.chromosome[k] and "
+                                     "result.data.start[j] == bait_arr.data.start[k] and result.data.end[j] == bait_arr.data.end[k] and "
+                                     "result.data.gene[j] == bait_arr.data.gene[k], result.data.index[j])) and "
+                                     "forall(0, len(result.data), lambda a: forall(0, len(result.data), lambda b: implies(a < b, result.data.index[a] < result.data.index[b]))) and "
+                                     "forall(0, len(bait_arr.data), lambda k: implies(bait_arr.data.start[k] != bait_arr.data.end[k], "
+                                     "exists(0, len(result.data), lambda j: result.data.index[j] == k))))"),
+        # with --split: non-overlapping bins covering exactly the union of the non-empty baits
+        ("split_bins_cover_exactly_the_baits", "implies(do_split, "
+            "forall(0, len(result.data), lambda j: forall(lambda x: implies(uf_bool('base', x) and result.data.start[j] <= x and x < result.data.end[j], "
+            "exists(0, len(bait_arr.data), lambda q: bait_arr.data.chromosome[q] == result.data.chromosome[j] and bait_arr.data.start[q] <= x and x < bait_arr.data.end[q])))) and "
+            "forall(0, len(bait_arr.data), lambda q: forall(lambda x: implies(uf_bool('base', x) and bait_arr.data.start[q] <= x and x < bait_arr.data.end[q], "
+            "exists(0, len(result.data), lambda j: result.data.chromosome[j] == bait_arr.data.chromosome[q] and result.data.start[j] <= x and x < result.data.end[j])))) and "
+            "forall(0, len(result.data), lambda a: forall(0, len(result.data), lambda b: implies(a < b and result.data.chromosome[a] == result.data.chromosome[b], "
+            "result.data.end[a] <= result.data.start[b] or result.data.end[b] <= result.data.start[a]))))"),
+    ],
+    props=("C12",), domain="skip",
+    canaries=[("empty_baits_kept", "tgt_arr = tgt_arr[tgt_arr.start != tgt_arr.end]", "tgt_arr = tgt_arr[tgt_arr.start <= tgt_arr.end]"),
+              ("minimum_size_on_split", "tgt_arr.subdivide(avg_size, 0)", "tgt_arr.subdivide(avg_size, 100)")],
+)
